@@ -253,11 +253,17 @@ def run(ctx):
     lb = Acc()
     logging_binding(lb)
     ctx.layer('counting-handler-binding', lb)
+    # the way bin/martinize2 hands its -maxwarn arguments to the accounting: real CLI runs
+    from props import c07_cli
+    c07_cli.run_layer(ctx, focus='maxwarn', name='cli-maxwarn')
 
 
 def replay(case):
     common.bind_repo()
     acc = Acc()
+    if case.get('layer') == 'cli':
+        from props import c07_cli
+        return c07_cli.replay(case)
     if 'maxwarn' in case:
         script = cli.load_script()
         text = case['maxwarn']
